@@ -177,7 +177,7 @@ func main() {
 					// goroutine switch; race workers park on pipes and need spare Ps
 					gmp := "GOMAXPROCS=1"
 					if race {
-						gmp = "GOMAXPROCS=4"
+						gmp = "GOMAXPROCS=8"
 					}
 					cmd.Env = append(os.Environ(), "GORACE=halt_on_error=1 exitcode=66", gmp)
 					var eb bytes.Buffer
